@@ -302,6 +302,10 @@ def register_all(M):
         I.model_state['unordered'] = bool(a[0])
         return UNIT()
 
+    @reg('harness::vrt::start_line')
+    def vrt_start_line(I, ext, a):
+        return UNIT()
+
     @reg('harness::vrt::order_deviations')
     def vrt_order_deviations(I, ext, a):
         I.model_state['order_budget'] = int(a[0])
@@ -1650,9 +1654,23 @@ def register_batch2(M):
         vt = targs(ext)[1]
         return entry_resolve(I, e, lambda: default_value(I, vt))
 
-    @reg("std::collections::hash_map::Entry::<'a, K, V>::or_insert")
+    @reg("std::collections::hash_map::Entry::<'a, K, V, A>::or_insert")
     def entry_or_insert(I, ext, a):
         return entry_resolve(I, a[0], lambda: a[1])
+
+    @reg("std::collections::hash_map::Entry::<'a, K, V, A>::or_insert_with")
+    def entry_or_insert_with(I, ext, a):
+        ftid = targs(ext)[-1]
+        ft = P.tys[ftid]
+        def mk():
+            if ft['kind'] == 'closure':
+                return I.call_fn(ft['call_once'], [a[1], Agg([])], RUST_CALL)
+            if ft['kind'] == 'fndef':
+                return I.call_fn(ft['inst'], [])
+            raise Unsupported('or_insert_with callee of type %s' % ft['str'])
+        if a[0].data[1] >= 0:
+            I.drop_value_at(Cell(a[1]), 0, ftid)
+        return entry_resolve(I, a[0], mk)
 
     def default_value(I, tid):
         t = P.tys[tid]
